@@ -81,7 +81,7 @@ def serve_stream(kind, data, cuts, fault="none", fault_at=0, send_errno=errno.EP
             kindr = "partial"
         ev.append({"e": "resp", "kind": kindr, "status": x["status"], "close": x["conn"] == "close", "clok": bool(clok)})
     ev.append({"e": "end", "closed": bool(r.closed), "escaped": r.escaped is not None, "appcalls": ncalls, "appfail": nfails,
-               "alive": bool(w.alive), "next_ok": bool(next_ok)})
+               "alive": bool(w.alive), "next_ok": bool(next_ok), "sent_requests": -1})
     return ev, {"escaped": r.escaped, "wire": r.wire[:200].decode("latin-1"), "kept": r.kept}
 
 
@@ -112,6 +112,66 @@ def mutate(rng, data):
         else:
             data = data[:pos]
     return bytes(data)
+
+
+def real_keepalive(wk, tail):
+    """real process, keep-alive on: one complete request, then silence or a truncated request for longer than the
+    keep-alive time; the server must close without sending anything that was not asked for"""
+    import socket
+    import time
+    from drivers import realproc as rp
+    s = rp.Server(wk, workers=1, threads=2 if wk == "gthread" else None, args=["--keep-alive", "1"], name="c05")
+    try:
+        s.start()
+        s.wait_booted(1)
+        c = s.connect(timeout=6)
+        st, body, info = s.get("/pid", sock=c, keepalive=True)
+        first_ok = st == 200 and info["complete"]
+        if tail:
+            c.sendall(tail)
+        extra = b""
+        closed = False
+        # phase 1: the client is silent for longer than the keep-alive time; phase 2: it half-closes
+        # (the stream is now truncated for good) and waits for the server to close
+        for phase, span in (("silent", 2.6), ("eof", 3.0)):
+            if closed:
+                break
+            if phase == "eof":
+                try:
+                    c.shutdown(socket.SHUT_WR)
+                except OSError:
+                    closed = True
+                    break
+            c.settimeout(span)
+            t0 = time.time()
+            try:
+                while time.time() - t0 < span:
+                    d = c.recv(65536)
+                    if not d:
+                        closed = True
+                        break
+                    extra += d
+            except socket.timeout:
+                pass
+            except OSError:
+                closed = True
+        c.close()
+        st2, body2, info2 = s.get("/pid", timeout=5)
+        ev = [{"e": "resp", "kind": "app" if first_ok else "junk", "status": 200, "close": False, "clok": True}]
+        for x in oracle_wire.read_responses(extra, True, []):
+            if not x.get("wellformed"):
+                ev.append({"e": "resp", "kind": "junk", "status": 0, "close": False, "clok": False})
+            else:
+                clok = x["cl"] >= 0 and len(x["body"]) == x["cl"]
+                ev.append({"e": "resp", "kind": "error" if x["status"] >= 400 else "app", "status": x["status"],
+                           "close": x["conn"] == "close", "clok": bool(clok)})
+        ev.append({"e": "end", "closed": closed, "escaped": False, "appcalls": 1, "appfail": 0, "alive": True,
+                   "next_ok": st2 == 200, "sent_requests": 1})
+        return {"ms": [], "cut": 0, "oracle": 0, "fault": "none", "ev": ev}, \
+            {"kind": wk, "bytes": "GET /pid (keep-alive) then %r then silence" % tail, "cuts": [], "fault": "keepalive-idle",
+             "fault_at": 0, "src": "real", "escaped": None, "wire": extra[:200].decode("latin-1")}
+    finally:
+        s.cleanup()
 
 
 def c05(ctx):
@@ -173,6 +233,14 @@ def c05(ctx):
         elif x < 0.3:
             fault, at = "send", rng.randint(0, 200)
         add(rng.choice(KINDS), data, hp.rand_cuts(rng, len(data)) if len(data) > 1 else [], fault=fault, fault_at=at, src="mutated")
+    # 5. real processes: the keep-alive wait of the async / threaded workers (timers cannot be scripted in-process)
+    from props.reload_real import _parallel
+    plan = [("gevent", b""), ("gevent", b"GET /second HTT"), ("gthread", b"GET /second HTT")] if ctx.quick else \
+        [(wk, tail) for wk in ("gevent", "eventlet", "gthread") for tail in (b"", b"GET /second HTT", b"GET /s HTTP/1.1\r\nHost")]
+    for t, m in _parallel(plan, lambda a, i: real_keepalive(a[0], a[1])):
+        traces.append(t)
+        metas.append(m)
+    ctx.coverage["real_process_keepalive_runs"] = len(plan)
     verdicts, stats = tlc.validate_batch("ConnTrace", "ConnTrace.cfg", traces, name="ConnTrace_C05", chunk=4000)
     ctx.add_traces(len(traces), stats)
     for t, m, (v, step) in zip(traces, metas, verdicts):
